@@ -660,6 +660,12 @@ def run(ctx):
         if not s["confirmed"]:
             # not reproducible on its own: report the original with what we have (still a found input, but flaky)
             c, r = viol[sig][0]
+            if (sig or "").startswith("wedge"):
+                # a wedge verdict rests on wall-clock deadlines inside a loaded batch; when the same program answers the halt
+                # request in isolation (with generous deadlines) there is no failing input: keep it in the evidence only
+                ctx.coverage.setdefault("unconfirmed_wedges", []).append(dict(sig=sig, occurrences=len(viol[sig]), src=c["src"][:200].decode(errors="replace")))
+                ctx.log("unconfirmed %s (%d occurrence(s)): answered the halt request when run alone; not reported" % (sig, len(viol[sig])))
+                continue
             ctx.problem("impl", "[%s] (not reproduced when run alone; %d occurrence(s) in the campaign) %s" % (sig, len(viol[sig]), describe(r)),
                         replay_text(c, r, "not reproduced in isolation"), found_input=True, sig=sig)
             continue
